@@ -10,7 +10,7 @@ from Geometry3D import intersection
 
 from .. import core, lib, exact as X, alphabet as A
 from ..core import Viol, Family
-from ..icheck import eval_inter
+from ..icheck import eval_inter, eval_moved_inter
 from . import C01, C02, C03
 
 LEVEL = 'exploration'
@@ -133,6 +133,11 @@ def eval_none(fam, o):
     return 'none|' + o[0], viols
 
 
+class MovedWrap(Wrap):
+    def eval(self, s):
+        return eval_moved_inter('C04', self.name, s[0], s[1])
+
+
 class NoneFam(Family):
     def __init__(self):
         self.name = 'none'
@@ -179,6 +184,11 @@ def families(tier):
         inner = C02.FlatBody(b, pose, params)
         fams.append(WrapHalf(inner))
     pairs = [(a, b) for a in bodies for b in bodies]
+    mv = C03.BodyPairs('translate', A.P1, pairs, {'window': C03.window(-1, 1, 1)[::4]})
+    mv.name = 'moved-bodies/P1'
+    fams.append(MovedWrap(mv))
+    mf = C01.Mixed('moved-flats', A.P1, planes[::5] + linelikes[::25], linelikes[::9] + planes[::7], both_orders=False, chunk=2)
+    fams.append(MovedWrap(mf))
     for pose in bp_poses:
         fams.append(Wrap(C03.BodyPairs('translate', pose, pairs, {'window': bp_window})))
         fams.append(Wrap(C03.BodyPairs('nested', pose, [(b, b) for b in bodies],
@@ -224,4 +234,6 @@ def replay(family, scene):
     sc = core.dec(scene)
     if sc[0] == 'none':
         return eval_none(family, sc[1])[1]
+    if family.startswith('moved'):
+        return eval_moved_inter('C04', family, sc[0], sc[1])[1]
     return eval4(family, sc[0], sc[1])[1]
